@@ -14,6 +14,7 @@ use vmon::report::{Args, Report};
 pub struct Sink<'a> {
     report: Option<&'a Report>,
     seen: Mutex<BTreeMap<String, u64>>,
+    first_what: Mutex<BTreeMap<String, String>>,
 }
 
 impl<'a> Sink<'a> {
@@ -21,12 +22,14 @@ impl<'a> Sink<'a> {
         Self {
             report: Some(r),
             seen: Mutex::new(BTreeMap::new()),
+            first_what: Mutex::new(BTreeMap::new()),
         }
     }
     pub fn collecting() -> Self {
         Self {
             report: None,
             seen: Mutex::new(BTreeMap::new()),
+            first_what: Mutex::new(BTreeMap::new()),
         }
     }
     pub fn violation(&self, sig: &str, what: &str, witness: Value) {
@@ -37,6 +40,7 @@ impl<'a> Sink<'a> {
             *e == 1
         };
         if first {
+            self.first_what.lock().unwrap().insert(sig.to_string(), what.chars().take(300).collect());
             if let Some(r) = self.report {
                 r.violation(sig, what, witness);
             }
@@ -52,6 +56,7 @@ impl<'a> Sink<'a> {
             *e == 1
         };
         if first {
+            self.first_what.lock().unwrap().insert(sig.to_string(), what.chars().take(300).collect());
             if let Some(r) = self.report {
                 r.violation(sig, what, witness());
             }
@@ -67,6 +72,7 @@ impl<'a> Sink<'a> {
             first
         };
         if first {
+            self.first_what.lock().unwrap().insert(sig.to_string(), what.chars().take(300).collect());
             if let Some(r) = self.report {
                 r.violation(sig, what, witness);
             }
@@ -74,6 +80,10 @@ impl<'a> Sink<'a> {
     }
     pub fn n_signatures(&self) -> usize {
         self.seen.lock().unwrap().len()
+    }
+    /// (signature, first description) of everything collected (used by the Miri leg)
+    pub fn signatures_with_what(&self) -> Vec<(String, String)> {
+        self.first_what.lock().unwrap().iter().map(|(k, v)| (k.clone(), v.clone())).collect()
     }
     pub fn signatures(&self) -> Vec<String> {
         self.seen.lock().unwrap().keys().cloned().collect()
